@@ -145,3 +145,14 @@ package cashu
 //@   tags C09 C20
 //@   safety C06
 //@   ensures @sat [C09,C20] unit == Sat ==> result == "sat"
+
+// sorts the three parallel slices in place by amount; lengths and non-nil-ness of the blinding factors are kept
+//@ func SortBlindedMessages
+//@   tags C19
+//@   safety C06 C19
+//@   requires len(secrets) == len(blindedMessages) && len(rs) == len(blindedMessages)
+//@   requires forall k :: 0 <= k && k < len(rs) ==> rs[k] != nil
+//@   modifies []blindedMessages, []secrets, []rs
+//@   ensures @nonnil [C19] forall k :: 0 <= k && k < len(rs) ==> rs[k] != nil
+//@   loop 1 invariant 0 <= i && (forall k :: 0 <= k && k < len(rs) ==> rs[k] != nil)
+//@   loop 2 invariant 0 <= i && i < len(blindedMessages) - 1 && i + 1 <= j && (forall k :: 0 <= k && k < len(rs) ==> rs[k] != nil)
